@@ -69,6 +69,20 @@ def oracle(case) -> Result:
         y_again = mps(x)
     if not torch.equal(y_again, y_mps):
         res.bad('mps-output-changed-by-export', max_abs_err=float((y_again - y_mps).abs().max()))
+    # 'on every input': the exported network is a pure function of its input - a second input,
+    # and the first one again after the MPS model and the export have run in between
+    x2 = mu.mps_input(spec, case['xseed'] + 1000)
+    with torch.no_grad():
+        y2_exp = must(res, 'exported-forward', exported, x2)
+        y2_mps = mps(x2)
+        y_exp_again = must(res, 'exported-forward', exported, x)
+    if y2_exp is not None and not torch.equal(y2_exp, y2_mps):
+        res.bad('output-not-bit-identical', call='second input', n_diff=int((y2_exp != y2_mps).sum()),
+                max_abs_err=float((y2_exp - y2_mps).abs().max()))
+    if y_exp_again is not None and y_exp_again.shape == y_exp.shape and \
+            not torch.equal(y_exp_again, y_exp):
+        res.bad('exported-output-changes-between-calls', n_diff=int((y_exp_again != y_exp).sum()),
+                max_abs_err=float((y_exp_again - y_exp).abs().max()))
 
     # precisions of exported layers == summary()
     summ = mps.summary()
